@@ -59,7 +59,7 @@ let run_M caseno tk =
   let nidx = next_int tk in
   let idxs = if nidx < 0 then None else Some (take_n tk nidx (fun tk -> take_n tk r next_z)) in
   let tr = map_transcript ity (nat_of_int lay) pv pat (nat_of_int ctor) es ss dpv idxs in
-  Printf.printf "M %d %s\n" caseno (pr_transcript ["ext"; "span"; "st"; "strides"; "fl"; "offs"] tr)
+  Printf.printf "M %d %s\n" caseno (pr_transcript ["ext"; "span"; "st"; "strides"; "fl"; "mfl"; "sz"; "emp"; "mext"; "mst"; "rk"; "sext"; "offs"] tr)
 
 let () =
   let ic = open_in Sys.argv.(1) in
